@@ -352,7 +352,7 @@ func (g *Gen) fieldType(depth int) reflect.Type {
 
 type Filler struct {
 	R *core.Rand
-	// NoNilElems: repeated pointer elements are never nil (always true for the claimed domain).
+	// MaxLen, when > 0, caps the length of repeated fields.
 	MaxLen int
 	// NoSpecialFloats avoids NaN (NaN != NaN complicates reference comparison).
 	NoNaN bool
@@ -370,7 +370,11 @@ func (f *Filler) length() int {
 	if f.Big && r.Chance(1, 40) {
 		return r.Range(1000, 5000)
 	}
-	return lenPool[r.Intn(len(lenPool))]
+	n := lenPool[r.Intn(len(lenPool))]
+	if f.MaxLen > 0 && n > f.MaxLen {
+		n = f.MaxLen
+	}
+	return n
 }
 
 func (f *Filler) Fill(v reflect.Value, depth int) {
